@@ -136,6 +136,7 @@ func runC12(c *Ctx, r *Rec) {
 	r.count("parse methods with (token, ok) results", nD1)
 	r.floor("D1-diagnostic-has-token", 3)
 	checkDiagnosticBuilders(c, r, "D1-diagnostic-cannot-fail")
+	checkIndexGuardAdmitsLength(c, r, "D1-guard-excludes-the-length", c.allFuncDecls("cdcn"))
 
 	// ---- D2 unchecked assertions
 	nA := 0
